@@ -1,1 +1,186 @@
-//! (filled in later)
+//! Variable-width primitives: str / symbol / binary with symbolic content at concrete lengths.
+//! Lean harness shape: one codec call per harness, encode into a fixed stack buffer through the
+//! real `Serializer<W>`, decode borrowed (`&str`, `&[u8]`).
+
+use crate::util::*;
+use serde::Serialize;
+use serde_amqp::primitives::{Array, Symbol, SymbolRef};
+use serde_amqp::ser::Serializer;
+use serde_amqp::{from_slice, serialized_size};
+
+fn ascii<const N: usize>(s: &mut crate::vsrc::S) -> [u8; N] {
+    let b: [u8; N] = s.bytes::<N>();
+    let mut i = 0;
+    while i < N {
+        s.assume(b[i] < 0x80);
+        i += 1;
+    }
+    b
+}
+
+/// encode `x` through the real Serializer into a stack buffer
+pub fn enc<T: Serialize + ?Sized, const N: usize>(x: &T) -> FixW<N> {
+    let mut se = Serializer::new(FixW::<N>::new());
+    x.serialize(&mut se).unwrap();
+    se.into_inner()
+}
+
+macro_rules! str_suite {
+    ($name_enc:ident, $name_rt:ident, $name_dec:ident, $name_size:ident, $n:expr) => {
+        // @unwind 8
+        // @bound str / symbol / binary of exactly N ASCII bytes, all contents
+        harness!($name_enc, |s| {
+            let b = ascii::<$n>(s);
+            let x = unsafe { std::str::from_utf8_unchecked(&b) };
+            let w = enc::<str, 16>(x);
+            assert!(valid_variable(w.out(), STR8, STR32, &b), "[C05] str encoding is not constructor + size(data octets) + data");
+            let w = enc::<SymbolRef, 16>(&SymbolRef(x));
+            assert!(valid_variable(w.out(), SYM8, SYM32, &b), "[C05] symbol encoding is not constructor + size + data");
+            let w = enc::<serde_bytes::Bytes, 16>(serde_bytes::Bytes::new(&b));
+            assert!(valid_variable(w.out(), VBIN8, VBIN32, &b), "[C05] binary encoding is not constructor + size + data");
+            vcover!(s, true, "encode reached");
+        });
+        // @unwind 8
+        harness!($name_rt, |s| {
+            let b = ascii::<$n>(s);
+            let x = unsafe { std::str::from_utf8_unchecked(&b) };
+            let w = enc::<str, 16>(x);
+            let y: &str = from_slice(w.out()).unwrap();
+            assert!(eq_bytes(y.as_bytes(), &b), "[C03] decode(encode(str)) != str");
+            vcover!(s, true, "roundtrip reached");
+        });
+        // @unwind 8
+        harness!($name_dec, |s| {
+            // both width variants of str / sym / vbin decode to the same value
+            let b = ascii::<$n>(s);
+            let mut e8 = [0u8; $n + 2];
+            e8[0] = STR8;
+            e8[1] = $n as u8;
+            e8[2..].copy_from_slice(&b);
+            let mut e32 = [0u8; $n + 5];
+            e32[0] = STR32;
+            e32[1..5].copy_from_slice(&($n as u32).to_be_bytes());
+            e32[5..].copy_from_slice(&b);
+            let y8: &str = from_slice(&e8).unwrap();
+            let y32: &str = from_slice(&e32).unwrap();
+            assert!(eq_bytes(y8.as_bytes(), &b) && eq_bytes(y32.as_bytes(), &b), "[C05] str8/str32 variant rejected or misread");
+            e8[0] = SYM8;
+            e32[0] = SYM32;
+            let s8: SymbolRef = from_slice(&e8).unwrap();
+            let s32: SymbolRef = from_slice(&e32).unwrap();
+            assert!(eq_bytes(s8.0.as_bytes(), &b) && eq_bytes(s32.0.as_bytes(), &b), "[C05] sym8/sym32 variant rejected or misread");
+            e8[0] = VBIN8;
+            e32[0] = VBIN32;
+            let b8: &serde_bytes::Bytes = from_slice(&e8).unwrap();
+            let b32: &serde_bytes::Bytes = from_slice(&e32).unwrap();
+            assert!(eq_bytes(b8, &b) && eq_bytes(b32, &b), "[C05] vbin8/vbin32 variant rejected or misread");
+            vcover!(s, true, "variants reached");
+        });
+        // @unwind 8
+        harness!($name_size, |s| {
+            let b = ascii::<$n>(s);
+            let x = unsafe { std::str::from_utf8_unchecked(&b) };
+            assert!(serialized_size(x).unwrap() == enc::<str, 16>(x).pos, "[C20] serialized_size(str) != encoded length");
+            assert!(serialized_size(&SymbolRef(x)).unwrap() == enc::<SymbolRef, 16>(&SymbolRef(x)).pos, "[C20] serialized_size(symbol) != encoded length");
+            let bb = serde_bytes::Bytes::new(&b);
+            assert!(serialized_size(bb).unwrap() == enc::<serde_bytes::Bytes, 16>(bb).pos, "[C20] serialized_size(binary) != encoded length");
+            vcover!(s, true, "size reached");
+        });
+    };
+}
+
+str_suite!(c05_enc_str0, c03_rt_str0, c05_dec_str0, c20_size_str0, 0);
+str_suite!(c05_enc_str2, c03_rt_str2, c05_dec_str2, c20_size_str2, 2);
+
+// @unwind 8
+// @bound binary of exactly 3 bytes, all contents
+harness!(c03_rt_bin3, |s| {
+    let b: [u8; 3] = s.bytes::<3>();
+    let w2 = enc::<serde_bytes::Bytes, 16>(serde_bytes::Bytes::new(&b));
+    let z: &serde_bytes::Bytes = from_slice(w2.out()).unwrap();
+    assert!(eq_bytes(z, &b), "[C03] decode(encode(binary)) != binary");
+    vcover!(s, true, "roundtrip reached");
+});
+
+// ---- width boundary 254 / 255 / 256 of variable-width primitives ----
+macro_rules! boundary {
+    ($name:ident, $n:expr) => {
+        // @unwind 4
+        // @bound str and binary of exactly N bytes (one symbolic ASCII byte repeated): constructor, size field, total length, serialized_size, borrowed binary decode
+        // @also C03,C20
+        harness!($name, |s| {
+            let c = s.u8();
+            s.assume(c < 0x80);
+            let data = [c; $n];
+            let x = unsafe { std::str::from_utf8_unchecked(&data) };
+            let w = enc::<str, 300>(x);
+            let v = w.out();
+            assert!(v[0] == STR8 || v[0] == STR32, "[C05] wrong constructor for a string");
+            let (hdr, len) = if v[0] == STR8 { (2usize, v[1] as usize) } else { (5usize, u32::from_be_bytes([v[1], v[2], v[3], v[4]]) as usize) };
+            assert!(len == $n && v.len() == hdr + $n, "[C05] size field does not count exactly the data octets at the 8/32-bit width boundary");
+            assert!(v[hdr] == c && v[v.len() - 1] == c, "[C05] data misplaced");
+            assert!(serialized_size(x).unwrap() == v.len(), "[C20] serialized_size != encoded length at the width boundary");
+            let bb = serde_bytes::Bytes::new(&data);
+            let w2 = enc::<serde_bytes::Bytes, 300>(bb);
+            let u = w2.out();
+            let (bh, bl) = if u[0] == VBIN8 { (2usize, u[1] as usize) } else { (5usize, u32::from_be_bytes([u[1], u[2], u[3], u[4]]) as usize) };
+            assert!((u[0] == VBIN8 || u[0] == VBIN32) && bl == $n && u.len() == bh + $n, "[C05] binary size field wrong at the width boundary");
+            assert!(serialized_size(bb).unwrap() == u.len(), "[C20] serialized_size(binary) != encoded length at the width boundary");
+            let z: &serde_bytes::Bytes = from_slice(u).unwrap();
+            assert!(z.len() == $n && z[0] == c && z[$n - 1] == c, "[C03] binary round-trip at the width boundary changed the value");
+            vcover!(s, true, "boundary reached");
+        });
+    };
+}
+boundary!(c05_boundary_254, 254);
+boundary!(c05_boundary_255, 255);
+boundary!(c05_boundary_256, 256);
+
+// ---- compound size field at the 8/32-bit boundary: list / map whose items are 254, 255, 256 bytes ----
+macro_rules! compound_boundary {
+    ($name:ident, $payload:expr) => {
+        // @unwind 4
+        // @bound one-element tuple whose single binary element makes the item bytes exactly 254 / 255 / 256
+        // @also C03,C20
+        harness!($name, |s| {
+            let c = s.u8();
+            let data = [c; $payload];
+            let item = 2 + $payload; // vbin8 header + data ($payload <= 254)
+            let x = (serde_bytes::Bytes::new(&data),);
+            let w = enc::<(&serde_bytes::Bytes,), 300>(&x);
+            let v = w.out();
+            let (hdr, body, count) = parse_compound(v, Some(LIST0), LIST8, LIST32).expect("[C05] list size field must count the count field plus the items (and fit its width)");
+            assert!(count == 1 && body == item && v.len() == hdr + body, "[C05] list size/count wrong at the 8/32-bit boundary");
+            assert!(serialized_size(&x).unwrap() == v.len(), "[C20] serialized_size(list) != encoded length at the boundary");
+            let y: (&serde_bytes::Bytes,) = from_slice(v).expect("[C03] list at the boundary does not decode");
+            assert!(y.0.len() == $payload, "[C03] list at the boundary did not round-trip");
+            vcover!(s, true, "boundary reached");
+        });
+    };
+}
+compound_boundary!(c05_list_items_254, 252);
+compound_boundary!(c05_list_items_255, 253);
+compound_boundary!(c05_list_items_256, 254);
+
+// ---- non-ASCII: byte length vs char count (plain value and array element) ----
+// @unwind 8
+// @bound one 2-byte UTF-8 scalar (all of U+0080..U+07FF) as a plain string and as the single element of an array
+// @also C05
+harness!(c03_rt_str_utf8_2byte, |s| {
+    let b0 = s.u8();
+    let b1 = s.u8();
+    s.assume(b0 >= 0xc2 && b0 <= 0xdf && b1 >= 0x80 && b1 <= 0xbf);
+    let b = [b0, b1];
+    let x = unsafe { std::str::from_utf8_unchecked(&b) };
+    let w = enc::<str, 16>(x);
+    assert!(valid_variable(w.out(), STR8, STR32, &b), "[C05] size of a non-ASCII string must count octets, not characters");
+    // as array element: e0 size count constructor <len> data  -- the element size counts octets too
+    let arr = Array::from(vec![x]);
+    let w2 = enc::<Array<&str>, 24>(&arr);
+    let v = w2.out();
+    assert!(v[0] == ARRAY8 && v[2] == 1, "[C05] one-element array header wrong");
+    let elem = &v[3..];
+    assert!(valid_variable(elem, STR8, STR32, &b), "[C05] string inside an array: the element size must count octets, not characters");
+    vcover!(s, true, "reached");
+    std::mem::forget(arr);
+});
